@@ -10,6 +10,8 @@ Decided (FACTS: forward must-analysis with value numbering, path-sensitive guard
  CONFIG-FROZEN  a per-sample method never assigns a *configuration* attribute (gains, references): a dropout
              fallback that re-tunes the filter would make later estimates differ from the no-dropout run.
 Not decided: that estimates return "to within normal tolerance" after the dropout (quantitative).
+Added after the seeding rounds (DESIGN.md 6.6-6.8):
+ DROPOUT-EXIT / RECOMPUTED  the zero side of every zero test on a sample norm raises or returns; AQUA.alpha never feeds back into itself.
 """
 import ast
 LINT_EXTRA_FILES = ("ahrs/common/orientation.py",)      # acc2q / am2q / ecompass helpers the filters start from
